@@ -32,6 +32,7 @@ import (
 
 	"golang.org/x/crypto/openpgp"
 	"golang.org/x/crypto/openpgp/clearsign"
+	"pault.ag/go/debian/internal"
 )
 
 // A Paragraph is a block of RFC2822-like key value pairs. This struct contains
@@ -393,10 +394,10 @@ func (p *ParagraphReader) decodeClearsig(keyring *openpgp.EntityList) error {
 		return err
 	}
 
-	signer, err := openpgp.CheckDetachedSignature(
+	signer, err := internal.CheckDetachedSignatures(
 		keyring,
-		bytes.NewReader(block.Bytes),
-		bytes.NewReader(signature),
+		func() io.Reader { return bytes.NewReader(block.Bytes) },
+		signature,
 	)
 
 	if err != nil {
